@@ -583,7 +583,12 @@ def redirect_one(mw: Any, case: Dict[str, Any], calls: List[tuple]) -> CaseInfo:
         if calls:
             raise Violation("redirect_cleartext_passed", f"{case}")
         return CaseInfo(False, ["no_host"])
-    run_sync(mw(scope, receive, send))
+    try:
+        run_sync(mw(scope, receive, send))
+    except Violation:
+        raise
+    except Exception as e:  # a well-formed scope with a host: nothing here may raise
+        raise Violation("redirect_raised", f"{e!r} for {case}")
     if case["secure"]:
         if len(calls) != 1 or calls[0][0] is not scope or calls[0][1] is not receive \
                 or calls[0][2] is not send or scope != before or sent:
